@@ -982,6 +982,11 @@ func C09(seed uint64, run int) *spec.Spec {
 	if r2 := NewRng(seed, 1009, run); !crowd && r2.Chance(FloodP) {
 		fl := c09flood(r2, g)
 		f.Flood = true
+		if NewRng(seed, 2009, run).Chance(0.15) {
+			// a HOT KEY instead of distinct ones: the very same call, count times (hit counters that age or
+			// saturate, adaptive structures that reorganise after N hits on one entry)
+			fl.Stride = 0
+		}
 		t := r2.Intn(len(s.Tasks))
 		if s.Tasks[t].Role == "evictor" {
 			t = 0
